@@ -234,6 +234,29 @@ fn seq_strategy(t: Tier) -> impl Strategy<Value = SeqCase> {
     prop::collection::vec(op_strategy(true), 0..max).prop_map(|ops| SeqCase { ops })
 }
 
+/// A hub with 90-150 incident edges (directed both ways, undirected, self-loops, parallel), then
+/// its deletion and a short tail. delete_node switches to a parallel clean-up at 100 incident edge
+/// ids, which the small sequences above never reach.
+fn bighub_strategy(_t: Tier) -> impl Strategy<Value = SeqCase> {
+    (
+        90usize..150,
+        prop::collection::vec((prop_oneof![1 => Just(0u16), 12 => any::<u16>()], any::<bool>(), 0u8..2, any::<bool>()), 150),
+        prop::collection::vec(op_strategy(true), 0..8),
+        prop::bool::weighted(0.8),
+    )
+        .prop_map(|(n, es, tail, delete_hub)| {
+            let mut ops = vec![Op::CreateNode, Op::CreateNode, Op::CreateNode, Op::CreateNode];
+            for (x, out, ty, directed) in es.into_iter().take(n) {
+                ops.push(if out { Op::CreateEdge(0, x, ty, directed) } else { Op::CreateEdge(x, 0, ty, directed) });
+            }
+            if delete_hub {
+                ops.push(Op::DeleteNode(0));
+            }
+            ops.extend(tail);
+            SeqCase { ops }
+        })
+}
+
 fn props(v: i64) -> HashMap<String, PropertyValue> {
     let mut p = HashMap::new();
     p.insert("w".to_string(), PropertyValue::Int(v));
@@ -623,6 +646,8 @@ fn main() {
         ],
         parts: vec![
             PropPart::new("seq", 8000, 300_000, seq_strategy, seq_check).boxed(),
+            // high-degree node: delete_node's parallel branch (>= 100 incident edge ids)
+            PropPart::new("bighub", 96, 3_000, bighub_strategy, seq_check).shrink_iters(300).boxed(),
             // list-operation granularity: yields before each adjacency update (outside any lock): deterministic
             PropPart::new("sched", 8000, 300_000, sched_strategy, |c: &SchedCase, ctx: &mut CaseCtx| sched_check(c, ctx, "graph.adj.pre")).shrink_iters(400).boxed(),
             // inside the read-modify-write window: with the window locked, parked holders make other
